@@ -142,7 +142,7 @@ impl Builder {
     }
     fn cond(&mut self) -> Cond {
         self.next_site += 1;
-        let form = if self.forms < 4 { self.forms } else { ((self.forms as u32 + self.next_site) % 4) as u8 };
+        let form = if self.forms < 4 { self.forms } else if self.forms == 8 { 4 } else { ((self.forms as u32 + self.next_site) % 4) as u8 };
         Cond { site: self.next_site, form }
     }
     fn body(&mut self, blocks: &[Sk], top: bool) -> Vec<Stmt> {
@@ -523,7 +523,7 @@ pub fn worker(w: &mut Worker) {
     // single-block programs: full product of keyword spellings
     for forest in forests(1, 3) {
         for emptiness in 0..2u8 {
-            for forms in 0..4u8 {
+            for forms in [0u8, 1, 2, 3, 8] {
                 let prog = build(&forest, emptiness, forms);
                 // discover the radices
                 let mut sp = Speller::digits(vec![]);
@@ -554,7 +554,7 @@ pub fn worker(w: &mut Worker) {
     for n in 2..=nmax {
         for forest in forests(n, 3) {
             for emptiness in 0..4u8 {
-                for forms in 0..8u8 {
+                for forms in 0..9u8 {
                     // rotations: every keyword occurrence meets every one of its spellings
                     for rot in 0..5usize {
                         if n >= 3 && !(rot == 0 || (rot == 1 && forms % 2 == 0)) {
@@ -643,7 +643,7 @@ pub fn crash_sig(_case: &Value, kind: &str) -> String {
     kind.to_string()
 }
 
-pub const RULE: &str = "programs: every well-nested forest of blocks {if with 0-2 elseif and optional else, while, for-in} with 1..N blocks and depth <= 3, an emit before / inside / after every block, leaf bodies with and without an emit, condition forms {value ${c}, ${c} and ${d}, command `ans`, negated command `not ans`} uniform and rotating; single-block programs with the full product of every spelling of every keyword (alias, block-specific end, generic end, full command name), larger ones with rotated spellings so that every keyword occurrence meets each of its spellings; for every program every assignment of truth values to condition evaluations and of lengths {0,1,2} to for-in arrays with a bounded number of deviations from the default (false / empty) within a horizon of choice points. Plus long-running loop nests (while / for-in, single, nested two and three deep, two inner loops in sequence, an inner loop inside a branch with and without branches after it, a small if-block (no else / else taken / last elseif taken) in every iteration of a long loop that sits in a branch of an if / if-else / elseif chain whose later branches must not run; iteration counts {0,1,40,70,300} quick, up to 5000 thorough, plus a 150000-iteration (thorough 600000) loop inside a loop and inside an if with an else; generic and block-specific end) whose counters and exit trace are compared with the same nest walked in Rust. Every execution on the real runner is compared with a tree-walking interpreter of the same AST run on the same answers: emit trace with loop-variable values and final variables (loop variables after their loop and handle names masked). evaluations = rendered programs; transitions = executions; states = distinct (trace length, deviations) classes";
+pub const RULE: &str = "programs: every well-nested forest of blocks {if with 0-2 elseif and optional else, while, for-in} with 1..N blocks and depth <= 3, an emit before / inside / after every block, leaf bodies with and without an emit, condition forms {value ${c}, ${c} and ${d}, ${c} or ${d} and ${e}, command `ans`, negated command `not ans`} uniform and rotating; single-block programs with the full product of every spelling of every keyword (alias, block-specific end, generic end, full command name), larger ones with rotated spellings so that every keyword occurrence meets each of its spellings; for every program every assignment of truth values to condition evaluations and of lengths {0,1,2} to for-in arrays with a bounded number of deviations from the default (false / empty) within a horizon of choice points. Plus long-running loop nests (while / for-in, single, nested two and three deep, two inner loops in sequence, an inner loop inside a branch with and without branches after it, a small if-block (no else / else taken / last elseif taken) in every iteration of a long loop that sits in a branch of an if / if-else / elseif chain whose later branches must not run; iteration counts {0,1,40,70,300} quick, up to 5000 thorough, plus a 150000-iteration (thorough 600000) loop inside a loop and inside an if with an else; generic and block-specific end) whose counters and exit trace are compared with the same nest walked in Rust. Every execution on the real runner is compared with a tree-walking interpreter of the same AST run on the same answers: emit trace with loop-variable values and final variables (loop variables after their loop and handle names masked). evaluations = rendered programs; transitions = executions; states = distinct (trace length, deviations) classes";
 pub const ASSUMPTIONS: &[&str] = &["ill-nested programs, arrays modified while iterated and jumps into blocks are outside the property", "value-form conditions of an if/elseif chain are computed in front of the block"];
 pub const EXHAUSTIVE: bool = true;
 pub const WALL_CAP_S: (u64, u64) = (55, 1500);
